@@ -74,7 +74,7 @@ def p_factor(f):
     if k == "id":
         return f[1]
     if k == "str":
-        return '"' + f[1].decode("latin-1") + '"'
+        return '"' + f[1].decode("utf-8") + '"'        # string bytes are kept as valid UTF-8 so that text and bytes agree
     raise ValueError(f)
 
 
